@@ -1,12 +1,14 @@
 pub mod c01;
+pub mod c10;
 
 use crate::engine::Prop;
 
 pub fn get(id: &str) -> Option<Box<dyn Prop>> {
   match id {
     "C01" => Some(Box::new(c01::C01)),
+    "C10" => Some(Box::new(c10::C10)),
     _ => None,
   }
 }
 
-pub const ALL: [&str; 1] = ["C01"];
+pub const ALL: [&str; 2] = ["C01", "C10"];
